@@ -275,7 +275,10 @@ def _stmt(st, env):
         _block(st.body if _ev(st.test, env) else st.orelse, env)
         return
     if isinstance(st, ast.For):
-        it = iter(_ev(st.iter, env))     # live iteration: mutating a dict while iterating it fails as in Python
+        try:
+            it = iter(_ev(st.iter, env))     # live iteration: mutating a dict while iterating it fails as in Python
+        except TypeError:
+            raise Raised("TypeError")        # not iterable
         broke = False
         while True:
             try:
@@ -665,6 +668,9 @@ def _ev(e, env):
                     return getattr(base, e.func.attr)(*_args(e, env))
                 except (TypeError, ValueError, UnicodeError, IndexError, KeyError) as ex:
                     raise Raised(type(ex).__name__)
+            if base is None or type(base) in (int, float, bool, tuple, list, dict, set, frozenset, complex) and \
+                    not hasattr(base, e.func.attr):
+                raise Raised("AttributeError")      # e.g. (7).upper()
         if d in ("operator.itemgetter", "itemgetter") and len(e.args) == 1:
             import operator as _op
             return _op.itemgetter(_ev(e.args[0], env))
